@@ -1,8 +1,11 @@
 package rules
 
 import (
+	"fmt"
+	"go/ast"
 	"go/constant"
 	"go/token"
+	"go/types"
 	"sort"
 	"strings"
 
@@ -31,6 +34,7 @@ func runC03(c *an.Ctx) {
 	// shared with C11: the ERROR of a critical task is not lost in the fold (children read and folded inside the
 	// critical section that stores the result)
 	c.As(map[string]string{"R11b": "R03j", "R11d": "R03i"}, func() { r11d(c, r11b(c)) })
+	r03k(c)
 }
 
 // constsLeadingTo: TaskState/other enum constants k such that an `x == k` test's true edge leads into (dominates) target's block.
@@ -616,5 +620,69 @@ func r03h(c *an.Ctx) {
 		skip := an.PathFromEntryAvoiding(fn, an.IsExit, ranges)
 		c.Ob("(*core/workflow."+strings.Replace(name, ".", ").", 1)+"|always-fans-out", fn.Pos(), !skip,
 			"the function can return without offering the value to the subscribers: the hand-over to the environment's watcher is a non-blocking send that is dropped when the watcher is busy, so an update suppressed as a repetition can be the one that would have got through - the environment then never leaves RUNNING")
+	}
+}
+
+// R03k: the environment manager dispatches the scheduler's events with a type switch. A case is dead when an earlier
+// case names an interface its type implements: the executor-failed / agent-failed events would then be swallowed by
+// the generic device-event arm and the tasks of a lost executor or agent never go to ERROR.
+func r03k(c *an.Ctx) {
+	c.Rule("R03k", "environment manager event dispatch: no case of the type switch is shadowed by an earlier interface case", 1)
+	fd, info := c.FuncDecl("core/environment", "NewEnvManager")
+	if fd == nil {
+		c.Lost("core/environment.NewEnvManager")
+		return
+	}
+	n := 0
+	ast.Inspect(fd, func(nd ast.Node) bool {
+		ts, ok := nd.(*ast.TypeSwitchStmt)
+		if !ok {
+			return true
+		}
+		var seenTypes []types.Type
+		var seenPos []token.Pos
+		handlesFailure := false
+		ast.Inspect(ts, func(m ast.Node) bool {
+			if se, isSel := m.(*ast.SelectorExpr); isSel && (se.Sel.Name == "HandleExecutorFailed" || se.Sel.Name == "HandleAgentFailed") {
+				handlesFailure = true
+			}
+			return true
+		})
+		if !handlesFailure {
+			return true
+		}
+		n++
+		c.Subject()
+		var bad []string
+		for _, cl := range ts.Body.List {
+			cc := cl.(*ast.CaseClause)
+			for _, e := range cc.List {
+				t := info.TypeOf(e)
+				if t == nil {
+					continue
+				}
+				for i, prev := range seenTypes {
+					iface, isI := prev.Underlying().(*types.Interface)
+					if !isI {
+						continue
+					}
+					if _, selfI := t.Underlying().(*types.Interface); selfI {
+						continue
+					}
+					if types.Implements(t, iface) {
+						bad = append(bad, fmt.Sprintf("%s (at %s) is caught by the earlier case %s (at %s)", types.TypeString(t, nil), c.PosStr(e.Pos()), types.TypeString(prev, nil), c.PosStr(seenPos[i])))
+					}
+				}
+				seenTypes = append(seenTypes, t)
+				seenPos = append(seenPos, e.Pos())
+			}
+		}
+		sort.Strings(bad)
+		c.Ob(fmt.Sprintf("core/environment.NewEnvManager|event-dispatch#%d|no-shadowed-case", n), ts.Pos(), len(bad) == 0,
+			"a case of the event dispatch can never be taken: %v - its handler (marking the tasks of a lost executor / agent as failed) is dead code", bad)
+		return true
+	})
+	if n == 0 {
+		c.Lost("the type switch dispatching executor/agent failure events in NewEnvManager")
 	}
 }
